@@ -296,50 +296,86 @@ def check_set_end_point(fx, R, cq, cname, dim, f):
     witnesses = [(-1, -1), (0, 0), (1, 1)]
     for k in sorted(consts):
         witnesses += [(-k / 2, -1), (k / 2, 1)]
+    o_sym = sp.Symbol('rayOriginPoint_[%s]' % iv, real=True)
+    c_sym = sp.Symbol('rayOriginCellCenterPosition[%s]' % iv, real=True)
+
+    def res_atoms(e):
+        """the grid resolution as it appears in an expression: the accessor left uninterpreted (quick tier) or its field once the body is inlined (thorough tier)"""
+        return [a for a in e.atoms(sp.core.function.AppliedUndef) if 'getCellResolution' in str(a.func)] + \
+            [a for a in e.free_symbols if str(a).endswith('cellResolution_')]
+
+    def feasible(extra, dval):
+        """Extra path conditions (not on the direction alone) are tried on witness origins of the origin cell [centre - res/2, centre + res/2):
+        lower border, centre, just below the upper border (res = 1, centre = 0)."""
+        for ov in (sp.Rational(-1, 2), sp.Integer(0), sp.Rational(49, 100)):
+            ok = True
+            for (cnd, pol) in extra:
+                v_ = cnd.subs({d: dval, o_sym: ov, c_sym: 0})
+                v_ = v_.subs({a_: sp.Integer(1) for a_ in res_atoms(v_)})
+                v_ = sp.simplify(v_)
+                if v_ not in (sp.true, sp.false):
+                    return None
+                if bool(v_) != pol:
+                    ok = False
+                    break
+            if ok:
+                return ov
+        return False
     for (val, want) in witnesses:
         taken = []
         for st in paths:
             truth = True
-            for c in st.cond:
-                if c[0] in ('True', 'False') or not isinstance(c[1], sp.Basic):
+            extra = []
+            for c_ in st.cond:
+                if c_[0] in ('True', 'False') or not isinstance(c_[1], sp.Basic):
                     continue
-                vv = c[1].subs(d, val)
+                if c_[1].free_symbols - {d}:
+                    extra.append((c_[1], c_[2]))
+                    continue
+                vv = c_[1].subs(d, val)
                 if vv not in (sp.true, sp.false):
                     truth = None
                     break
-                if bool(vv) != c[2]:
+                if bool(vv) != c_[2]:
                     truth = False
                     break
-            if truth:
-                taken.append(st)
-            elif truth is None:
+            if truth is None:
                 taken = None
                 break
+            if truth:
+                fz = feasible(extra, val) if extra else sp.Integer(0)
+                if fz is None:
+                    taken = None
+                    break
+                if fz is not False:
+                    taken.append((st, fz, extra))
         inst = '%s::setEndPoint:step(direction=%s)' % (cname, sp.nsimplify(val) if val in (-1, 0, 1) else ('%.3g' % float(val)))
-        if taken is None or len(taken) != 1:
-            R.undecided('Y5', inst, 'witness does not select exactly one path')
+        if not taken:
+            R.undecided('Y5', inst, 'witness selects no feasible path (or a condition is not evaluable)')
             continue
-        got = taken[0].fields.get(('this', 'rayStep_[%s]' % iv))
-        R.check(got == want, 'Y5', '%s::setEndPoint:step-sign' % cname if got != want else inst,
-                'a direction component of %s gets step %s instead of %s: the number of cells still counts the steps along that axis, so the walk overshoots along another one' % (
-                    '%.3g' % float(val), got, want), 'step = sign(direction)', fx.rel(f['loc']), 'E-ORD')
-        # formulas on the moving paths
-        if want != 0 and got == want:
-            st = taken[0]
-            tm, td = st.fields.get(('this', 'rayTMax_[%s]' % iv)), st.fields.get(('this', 'rayTDelta_[%s]' % iv))
-            if not isinstance(tm, sp.Basic) or not isinstance(td, sp.Basic):
-                R.undecided('Y5', inst + ':formulas', 'tMax/tDelta not interpretable')
-                continue
-            o = sp.Symbol('rayOriginPoint_[%s]' % iv, real=True)
-            c_ = sp.Symbol('rayOriginCellCenterPosition[%s]' % iv, real=True)
-            res = [a for a in td.atoms(sp.Function)]
-            funcs = [a for a in td.atoms(sp.core.function.AppliedUndef)]
-            ok = len(funcs) == 1 and 'getCellResolution' in str(funcs[0].func)
-            if ok:
-                r = funcs[0]
-                ok = sp.simplify(td - r / sp.Abs(d)) == 0 and sp.simplify(tm - (c_ + want * r / 2 - o) / d) == 0
-            R.check(bool(ok), 'Y5', inst + ':formulas', 'tMax = %s, tDelta = %s; expected (centre + step*res/2 - origin)/direction and res/|direction|' % (tm, td),
-                    'tMax = (border - origin)/dir ; tDelta = res/|dir|', fx.rel(f['loc']), 'E-ALG')
+        for (st, origin_w, extra) in taken:
+            tagx = '' if not extra else '[origin at %s of its cell]' % ('the lower border' if origin_w == sp.Rational(-1, 2) else 'the centre' if origin_w == 0 else 'the upper end')
+            got = st.fields.get(('this', 'rayStep_[%s]' % iv))
+            R.check(got == want, 'Y5', '%s::setEndPoint:step-sign' % cname if got != want else inst + tagx,
+                    'a direction component of %s gets step %s instead of %s: the number of cells still counts the steps along that axis, so the walk overshoots along another one' % (
+                        '%.3g' % float(val), got, want), 'step = sign(direction)', fx.rel(f['loc']), 'E-ORD')
+            if want != 0 and got == want:
+                tm, td = st.fields.get(('this', 'rayTMax_[%s]' % iv)), st.fields.get(('this', 'rayTDelta_[%s]' % iv))
+                if not isinstance(tm, sp.Basic) or not isinstance(td, sp.Basic):
+                    R.undecided('Y5', inst + ':formulas' + tagx, 'tMax/tDelta not interpretable')
+                    continue
+                funcs = res_atoms(td)
+                ok = len(funcs) == 1
+                if ok:
+                    r = funcs[0]
+                    ok = sp.simplify(td - r / sp.Abs(d)) == 0 and sp.simplify(tm - (c_sym + want * r / 2 - o_sym) / d) == 0
+                if ok:
+                    R.holds('Y5', inst + ':formulas' + tagx, 'tMax = (border - origin)/dir ; tDelta = res/|dir|', fx.rel(f['loc']), 'E-ALG')
+                else:
+                    R.violated('Y5', '%s::setEndPoint:crossing-parameters' % cname, 'for a direction component of %s and the origin at %s of its cell (conditions %s) tMax = %s, tDelta = %s; the first crossing is '
+                               '(centre + step*res/2 - origin)/direction and the increment res/|direction|: every crossing on this axis is then shifted' % (
+                                   '%.3g' % float(val), 'the lower border' if origin_w == sp.Rational(-1, 2) else 'the centre' if origin_w == 0 else 'the upper end',
+                                   [str(x[0]) for x in extra], tm, td), fx.rel(f['loc']), 'E-ALG')
     # prologue: direction = (end - origin)/norm ; end indexes ; centre of the ORIGIN cell
     ps = stmts_sx(f)
     need = [('expr', ('=', 'this.rayEndPoint_', 'endPoint')),
